@@ -33,7 +33,8 @@ CLAIMED["C01"] = dict(
           "semantics ('/' one slash, LITERAL one equal segment, '*' exactly one segment, '**' everything up to the verb or the end) for every pattern and "
           "token sequence (loop step clauses); path.search slices and indexes safely, takes a variable edge only after a slash token, binds the k-th capture "
           "to the k-th template variable (depth ghost) and terminates; path.match composes them. The well-formedness of variable patterns that the matcher relies on is established by construction: "
-          "addRule passes only patterns of the shape segment ('/' segment)* to addVariable (from the template automaton) and a new variable node is created with that pattern and a non-nil subtree."),
+          "addRule passes only patterns of the shape segment ('/' segment)* to addVariable (from the template automaton) and a new variable node is created with that pattern and a non-nil subtree; "
+          "parseParam's body contains no integer conversion that can change a value (text that does not fit the field's type is left to the typed decoder to reject)."),
     note=TRUST + "Assumed, not proved: the trie invariant TrieWf (what addRule builds: well-formed variable patterns, non-nil children, depth bookkeeping), map contents at lookups (assume-at clauses listed in the evidence), parseParam/tokens.String as trusted pure functions, the read-only region of variable pattern arrays, the typed conversions in encoding/json, protojson, base64.",
     ref="DESIGN.md section 5 C01")
 CLAIMED["C02"] = dict(
@@ -107,8 +108,9 @@ CLAIMED["C16"] = dict(
           "(ghost run maintained by emit; nested variables rejected), it is memory-safe, terminates and accepts every LITERAL segment; addRule's token walk stays inside that run for every accepted template "
           "(no index out of range, its three invalid(...) panics unreachable), hands only well-formed variable patterns to addVariable, never dereferences a nil method at an occupied binding, accepts a duplicate silently only for the same method (full name), "
           "resolves path variables and body in the request type and response_body in the reply type, and stores only selectors whose every element is a singular message field; fieldPath rejects paths through repeated/map fields; "
-          "registerService publishes only on success."),
-    note=TRUST + "addRule is under a partial contract (claimed: ghost assertions, index, slice, loop invariants, preconditions of its closures and of addVariable's pattern clause); its nil obligations for map contents and the recursion for additional bindings are not claimed (frame assumed). Not decided: that every grammar-conforming template is accepted (only LITERAL acceptance), that an instantiated path routes back to the method (C01/C02 assume the trie invariant), failure atomicity inside one registration beyond publish-on-success.",
+          "registerService publishes only on success. The representation invariant TrieOk (every trie node has its maps, no child segment is nil, every variable has a subtree; quantified over the objects allocated as nodes via dynamic type tags) "
+          "is established by newPath and preserved on every return by addPath, addVariable and addRule, which discharges addRule's nil obligations on its cursor."),
+    note=TRUST + "addRule is under a partial contract (claimed: ghost assertions, index, slice, loop invariants, preconditions of its closures and of addVariable's pattern clause); its nil obligations for map contents and the recursion for additional bindings are not claimed (frame assumed). clone's preservation of TrieOk and the non-nil entries of variable lists are not proved (DESIGN 10.6). Not decided: that every grammar-conforming template is accepted (only LITERAL and wildcard acceptance), that an instantiated path routes back to the method (C01/C02 assume the trie invariant), failure atomicity inside one registration beyond publish-on-success.",
     ref="DESIGN.md sections 5 C16 and 10.3")
 CLAIMED["C18"] = dict(
     text=("Partial proof (call counts, constructors, stream info): muxOptions.unary / stream invoke exactly one of interceptor and handler, once, on every path; the StreamServerInfo built for local and for proxied streaming methods carries the method's own name and "
